@@ -310,6 +310,10 @@ def gen_rivernet(r, ndates=3):
         kw = {}
         if a in rivers and r.random() < 0.15:
             kw = {"type_": "QueueArc", "number_of_timesteps": r.choice([1, 2])}
+        elif a not in rivers and r.random() < 0.5:
+            # below a junction: a junction passes every push on at once, so this arc is pushed once per tributary and
+            # timestep - its record for the timestep is the sum of what those pushes delivered
+            kw = {"type_": r.choice(["AltQueueArc", "AltQueueArc", "QueueArc"]), "number_of_timesteps": r.choice([0, 1, 1, 2])}
         g.arc(a, b, cap=r.choice([None, None, None, F(4)]), **kw)
     order = r.choice(["downstream-first", "upstream-first", "shuffled", "shuffled"])
     rank = {n: i for i, n in enumerate(net)}
